@@ -355,11 +355,16 @@ Definition ann_del (a : actor) (l : list (actor * Z)) : list (actor * Z) :=
 Definition past_main (v : tst) : bool :=
   match v with TPost | TAnn | TAnnDone | TEnded => true | _ => false end.
 
-(** [a] is in the middle of something it must finish first: executing an inline
-    child (called synchronously), or inside coordinator.submit() for a child
-    (permit not yet taken / not yet queued / not yet added to the associated
-    futures) *)
+(** [a] is in the middle of something it must finish first: a request it sent
+    and whose response has not come back (client calls are synchronous),
+    executing an inline child (called synchronously), or inside
+    coordinator.submit() for a child (permit not yet taken / not yet queued /
+    not yet added to the associated futures) *)
+Definition in_request (s : state) (a : actor) : bool :=
+  existsb (fun q => (r_actor q =? a) && negb (r_ended q)) (reqs s).
+
 Definition busy (s : state) (a : actor) : bool :=
+  in_request s a ||
   existsb (fun x => (k_parent x =? a) &&
              (if stage_eqb (k_stage x) SInline
               then negb (tst_eqb (k_st x) TEnded) && negb (tst_eqb (k_st x) TQueued)
@@ -471,15 +476,20 @@ Definition step (s : state) (e : event) : option state :=
 
   | EAddCallback a t c =>
       (* registered by the user thread before submission, or by code acting for t *)
-      if is_user a || acting_task s a t || in_callback s a t
+      if negb (busy s a) && (is_user a || acting_task s a t || in_callback s a t)
       then on_coord s t (fun x =>
-             if mem_z c (c_callbacks x) || mem_z c (c_ran_callbacks x) then None
+             if mem_z c (c_callbacks x) || mem_z c (c_ran_callbacks x)
+                || match c_cb_runner x with Some _ => true | None => false end then None
              else Some (c_with_lists x (c_cleanups x) (c_callbacks x ++ [c])))
       else None
 
   | EAddCleanup a t c =>
       if negb (busy s a) && acting_task s a t
-      then on_coord s t (fun x => Some (c_with_lists x (c_cleanups x ++ [c]) (c_callbacks x)))
+      then on_coord s t (fun x =>
+             match c_cl_runner x with
+             | Some _ => None    (* add_failure_cleanup blocks on the lock held by the runner *)
+             | None => Some (c_with_lists x (c_cleanups x ++ [c]) (c_callbacks x))
+             end)
       else None
 
   | ESubmit a k t g final deps kind =>
@@ -488,7 +498,9 @@ Definition step (s : state) (e : event) : option state :=
          in its main or in its done-callbacks *)
       let fresh := match find_task k (tasks s) with None => true | Some _ => false end in
       let who_ok :=
-        if kind =? KSubmission then is_user a && stage_eqb g SSub
+        if kind =? KSubmission
+        then is_user a && stage_eqb g SSub && negb final
+             && negb (existsb (fun x => k_t x =? t) (tasks s))   (* the first and only task so far *)
         else negb (busy s a) && acting_task s a t in
       let deps_ok := forallb (fun d =>
         match find_task d (tasks s) with
@@ -526,7 +538,7 @@ Definition step (s : state) (e : event) : option state :=
   | EAcquire a k sem =>
       match find_task k (tasks s), find_sem sem (sems s) with
       | Some x, Some v =>
-          if tst_eqb (k_st x) TSubmitting && (k_parent x =? a) && (k_permit x =? -1) && (0 <? v)
+          if negb (in_request s a) && tst_eqb (k_st x) TSubmitting && (k_parent x =? a) && (k_permit x =? -1) && (0 <? v)
              && ((sem =? sem_of_stage (k_stage x)) || (sem =? SEM_UP) || (sem =? SEM_DOWN))
           then Some (set_sems (set_tasks s (upd_task k (fun y => with_permit y sem) (tasks s)))
                               (upd_sem sem (-1) (sems s)))
@@ -538,7 +550,7 @@ Definition step (s : state) (e : event) : option state :=
       match find_task k (tasks s) with
       | Some x =>
           let g := get_stage s (k_stage x) in
-          if tst_eqb (k_st x) TSubmitting && (k_parent x =? a) && (0 <=? k_permit x)
+          if negb (in_request s a) && tst_eqb (k_st x) TSubmitting && (k_parent x =? a) && (0 <=? k_permit x)
              && negb (g_shut g) && negb (stage_eqb (k_stage x) SInline)
           then Some (set_stage (set_tasks s (upd_task k (fun y => with_st y TQueued) (tasks s)))
                                (k_stage x)
@@ -548,6 +560,7 @@ Definition step (s : state) (e : event) : option state :=
       end
 
   | EAssoc a k =>
+      if in_request s a then None else
       on_task s k (fun x =>
         if (k_parent x =? a) && (k_assoc x =? 0) && negb (tst_eqb (k_st x) TSubmitting)
            && negb (k_kind x =? KSubmission) && negb (stage_eqb (k_stage x) SInline)
@@ -713,7 +726,11 @@ Definition step (s : state) (e : event) : option state :=
       end
 
   | EOnProgress a t =>
-      if acting_task s a t
+      (* delivered from inside a request (body reads) or right after it *)
+      if match find_task a (tasks s) with
+         | Some x => (k_t x =? t) && tst_eqb (k_st x) TMain && negb (k_kind x =? KSubmission)
+         | None => false
+         end
       then on_coord (bump_after_shutdown s) t (fun c =>
              Some (c_with_ghost c (c_queued_cbs c)
                      (c_progress_after_done c ||
@@ -763,6 +780,7 @@ Definition step (s : state) (e : event) : option state :=
       end
 
   | ECleanupsBegin a t =>
+      if busy s a then None else
       on_coord s t (fun c =>
         match ann_phase a (c_announcers c), c_cl_runner c with
         | Some 0, None =>
@@ -788,8 +806,8 @@ Definition step (s : state) (e : event) : option state :=
       on_coord s t (fun c =>
         match c_cl_runner c, ann_phase a (c_announcers c) with
         | Some b, Some 1 =>
-            if b =? a
-            then (* the code empties the list: cleanups added meanwhile by others are dropped *)
+            if (b =? a) && match c_cleanups c with [] => true | _ => false end
+            then (* every registered cleanup has been run; the list is reset *)
               Some (c_with_ann (c_with_runners (c_with_lists c [] (c_callbacks c)) None (c_cb_runner c))
                                (c_owing c) (ann_set a 2 (c_announcers c)))
             else None
@@ -797,6 +815,7 @@ Definition step (s : state) (e : event) : option state :=
         end)
 
   | EEventSet a t =>
+      if busy s a then None else
       on_coord s t (fun c =>
         match ann_phase a (c_announcers c) with
         | Some p =>
@@ -807,6 +826,7 @@ Definition step (s : state) (e : event) : option state :=
         end)
 
   | ECallbacksBegin a t =>
+      if busy s a then None else
       on_coord s t (fun c =>
         match ann_phase a (c_announcers c), c_cb_runner c with
         | Some 3, None =>
@@ -837,6 +857,7 @@ Definition step (s : state) (e : event) : option state :=
         end)
 
   | EAnnEnd a t =>
+      if busy s a then None else
       match find_coord t (coords s) with
       | Some c =>
           match ann_phase a (c_announcers c) with
@@ -925,7 +946,8 @@ Definition step (s : state) (e : event) : option state :=
         | OpPart | OpComplete =>
             match find_upload uid (uploads s1) with
             | Some u =>
-                if u_t u =? t then
+                (* one complete call per upload id *)
+                if (u_t u =? t) && negb (s3op_eqb op OpComplete && u_complete_begun u) then
                   Some (set_uploads s1 (upd_upload uid (fun v =>
                     mkUpload (u_id v) (u_t v) (u_inflight v + 1) (u_completes_ok v)
                              (u_complete_begun v || s3op_eqb op OpComplete) (u_abort_begun v) (u_abort_count v)
